@@ -101,4 +101,12 @@ CHECKS = {
         note="Bounds: <= 2 shards (3 thorough), <= 2 deviations (3 thorough; 1 for the heaviest scenarios). After a drop the scripts address the dropped object no more (a source never does).",
         parts=[part("drop", "core", "reader", "TestVerifC04Drop", shards=(12, 16), budget=(150, 900), gomaxprocs=1)],
     ),
+    "C13": dict(
+        level="exploration", engine="sched",
+        technique="stateless DFS over goroutine schedules (deviation-bounded) with catalog writes placed at every step of the real reader start-up over an in-memory etcd",
+        text="The real CollectionReader.StartRead and EtcdOp (watchers, event pool) run over fakeetcd; for every scenario the catalog writes are placed at every decision point among the reader's etcd calls and all schedules within the deviation bound are executed; at quiescence the recorded StartReadCollection / AddPartition / AddDropped* calls are compared with the catalog model.",
+        note="Bounds: <= 4 catalog writes per scenario, <= 1 further deviation (2 thorough), two databases. Duplicate-notification handling by the real channel manager is exercised in the C04 family (drop:announced-twice). fakeetcd models Get/prefix/Watch-with-prev-kv semantics; thorough conformance against embedded etcd is a separate part.",
+        parts=[part("start", "core", "reader", "TestVerifC13Start", shards=(12, 16), budget=(150, 900), gomaxprocs=1),
+               part("lookup", "core", "reader", "TestVerifC13Lookup", shards=(4, 8), budget=(120, 600))],
+    ),
 }
